@@ -585,3 +585,266 @@ pub fn tls_select(core: &Core, alpn: &[Vec<u8>], sni: &str) -> Result<VConnectio
         sni_auth_creds: m.sni_auth_creds,
     })
 }
+
+// ---------------------------------------------------------------------------------------
+// Scripted pipe endpoints and the real `DuplexPipe` (C02 / C14)
+
+pub mod vpipe {
+    use crate::{log_utils, pipe};
+    use async_trait::async_trait;
+    use bytes::Bytes;
+    use std::io;
+    use std::sync::{Arc, Mutex};
+    use std::time::Duration;
+    use tokio::time::Instant;
+
+    #[derive(Debug, Clone)]
+    pub enum SrcEv {
+        Chunk(Vec<u8>),
+        Eof,
+        Err,
+    }
+
+    /// event `i` becomes ready `delay_ms` after event `i-1` was delivered (after creation for `i = 0`)
+    #[derive(Debug, Clone, Default)]
+    pub struct SrcScript {
+        pub events: Vec<(u64, SrcEv)>,
+        /// index of the `consume` call that fails
+        pub consume_err_at: Option<usize>,
+    }
+
+    #[derive(Debug, Clone, Default)]
+    pub struct SinkScript {
+        /// bytes accepted by the i-th `write` call (beyond the list: everything)
+        pub quotas: Vec<usize>,
+        /// the i-th completed `wait_writable` becomes ready this long after it was first awaited
+        pub writable_delays: Vec<u64>,
+        pub write_err_at: Option<usize>,
+        pub writable_err_at: Option<usize>,
+        pub eof_err: bool,
+        pub flush_err: bool,
+        pub flush_delay: u64,
+    }
+
+    #[derive(Debug, Clone)]
+    pub struct LogEntry {
+        pub t_ms: u64,
+        /// 0 = left pipe (client -> peer), 1 = right pipe
+        pub dir: u8,
+        pub call: String,
+        pub resp: String,
+    }
+
+    #[derive(Clone)]
+    struct Shared {
+        log: Arc<Mutex<Vec<LogEntry>>>,
+        start: Instant,
+    }
+
+    impl Shared {
+        fn push(&self, dir: u8, call: String, resp: String) {
+            let t_ms = Instant::now().duration_since(self.start).as_millis() as u64;
+            self.log.lock().unwrap().push(LogEntry { t_ms, dir, call, resp });
+        }
+    }
+
+    /// logs `timeout` for a pending call whose future is dropped before completion
+    struct Pending<'a> {
+        shared: &'a Shared,
+        dir: u8,
+        call: &'static str,
+        done: bool,
+    }
+
+    impl Drop for Pending<'_> {
+        fn drop(&mut self) {
+            if !self.done {
+                self.shared.push(self.dir, self.call.to_string(), "timeout".to_string());
+            }
+        }
+    }
+
+    fn hex(b: &[u8]) -> String {
+        if b.is_empty() {
+            return "-".to_string();
+        }
+        b.iter().map(|x| format!("{:02x}", x)).collect()
+    }
+
+    struct VSource {
+        shared: Shared,
+        dir: u8,
+        script: SrcScript,
+        idx: usize,
+        ready_at: Option<Instant>,
+        last_delivery: Instant,
+        consumes: usize,
+    }
+
+    #[async_trait]
+    impl pipe::Source for VSource {
+        fn id(&self) -> log_utils::IdChain<u64> {
+            log_utils::IdChain::empty()
+        }
+
+        async fn read(&mut self) -> io::Result<pipe::Data> {
+            let mut guard = Pending { shared: &self.shared, dir: self.dir, call: "read", done: false };
+            if self.idx >= self.script.events.len() {
+                // script exhausted: the source stays silent forever
+                futures::future::pending::<()>().await;
+                unreachable!();
+            }
+            let (delay, ev) = self.script.events[self.idx].clone();
+            let ready_at = *self.ready_at.get_or_insert(self.last_delivery + Duration::from_millis(delay));
+            tokio::time::sleep_until(ready_at).await;
+            guard.done = true;
+            self.idx += 1;
+            self.ready_at = None;
+            self.last_delivery = Instant::now();
+            match ev {
+                SrcEv::Chunk(b) => {
+                    self.shared.push(self.dir, "read".into(), format!("chunk:{}", hex(&b)));
+                    Ok(pipe::Data::Chunk(Bytes::from(b)))
+                }
+                SrcEv::Eof => {
+                    self.shared.push(self.dir, "read".into(), "eof".into());
+                    Ok(pipe::Data::Eof)
+                }
+                SrcEv::Err => {
+                    self.shared.push(self.dir, "read".into(), "err".into());
+                    Err(io::Error::new(io::ErrorKind::ConnectionReset, "scripted read error"))
+                }
+            }
+        }
+
+        fn consume(&mut self, size: usize) -> io::Result<()> {
+            let i = self.consumes;
+            self.consumes += 1;
+            if self.script.consume_err_at == Some(i) {
+                self.shared.push(self.dir, format!("consume:{}", size), "err".into());
+                return Err(io::Error::new(io::ErrorKind::Other, "scripted consume error"));
+            }
+            self.shared.push(self.dir, format!("consume:{}", size), "unit".into());
+            Ok(())
+        }
+    }
+
+    struct VSink {
+        shared: Shared,
+        dir: u8,
+        script: SinkScript,
+        writes: usize,
+        waits: usize,
+        wait_ready_at: Option<Instant>,
+    }
+
+    #[async_trait]
+    impl pipe::Sink for VSink {
+        fn id(&self) -> log_utils::IdChain<u64> {
+            log_utils::IdChain::empty()
+        }
+
+        fn write(&mut self, data: Bytes) -> io::Result<Bytes> {
+            let i = self.writes;
+            self.writes += 1;
+            if self.script.write_err_at == Some(i) {
+                self.shared.push(self.dir, format!("write:{}", hex(&data)), "err".into());
+                return Err(io::Error::new(io::ErrorKind::BrokenPipe, "scripted write error"));
+            }
+            let quota = self.script.quotas.get(i).copied().unwrap_or(usize::MAX);
+            let k = quota.min(data.len());
+            self.shared.push(self.dir, format!("write:{}", hex(&data)), format!("accepted:{}", k));
+            Ok(data.slice(k..))
+        }
+
+        fn eof(&mut self) -> io::Result<()> {
+            if self.script.eof_err {
+                self.shared.push(self.dir, "sinkeof".into(), "err".into());
+                return Err(io::Error::new(io::ErrorKind::Other, "scripted eof error"));
+            }
+            self.shared.push(self.dir, "sinkeof".into(), "unit".into());
+            Ok(())
+        }
+
+        async fn wait_writable(&mut self) -> io::Result<()> {
+            let mut guard = Pending { shared: &self.shared, dir: self.dir, call: "waitwritable", done: false };
+            let i = self.waits;
+            let delay = self.script.writable_delays.get(i).copied().unwrap_or(0);
+            let ready_at = *self.wait_ready_at.get_or_insert(Instant::now() + Duration::from_millis(delay));
+            tokio::time::sleep_until(ready_at).await;
+            guard.done = true;
+            self.waits += 1;
+            self.wait_ready_at = None;
+            if self.script.writable_err_at == Some(i) {
+                self.shared.push(self.dir, "waitwritable".into(), "err".into());
+                return Err(io::Error::new(io::ErrorKind::Other, "scripted wait_writable error"));
+            }
+            self.shared.push(self.dir, "waitwritable".into(), "unit".into());
+            Ok(())
+        }
+
+        async fn flush(&mut self) -> io::Result<()> {
+            let mut guard = Pending { shared: &self.shared, dir: self.dir, call: "flush", done: false };
+            tokio::time::sleep(Duration::from_millis(self.script.flush_delay)).await;
+            guard.done = true;
+            if self.script.flush_err {
+                self.shared.push(self.dir, "flush".into(), "err".into());
+                return Err(io::Error::new(io::ErrorKind::Other, "scripted flush error"));
+            }
+            self.shared.push(self.dir, "flush".into(), "unit".into());
+            Ok(())
+        }
+    }
+
+    pub struct DuplexRun {
+        /// `ok` | `timedout` | `err`
+        pub result: String,
+        pub end_ms: u64,
+        pub log: Vec<LogEntry>,
+    }
+
+    /// Run the real `DuplexPipe::exchange` over scripted endpoints. Must be called on a
+    /// current-thread runtime with the clock paused (virtual time).
+    pub async fn run_duplex(
+        left: (SrcScript, SinkScript),
+        right: (SrcScript, SinkScript),
+        timeout_ms: u64,
+    ) -> DuplexRun {
+        let shared = Shared { log: Default::default(), start: Instant::now() };
+        let mk = |dir: u8, (src, sink): (SrcScript, SinkScript)| -> (Box<dyn pipe::Source>, Box<dyn pipe::Sink>) {
+            (
+                Box::new(VSource {
+                    shared: shared.clone(),
+                    dir,
+                    script: src,
+                    idx: 0,
+                    ready_at: None,
+                    last_delivery: Instant::now(),
+                    consumes: 0,
+                }),
+                Box::new(VSink { shared: shared.clone(), dir, script: sink, writes: 0, waits: 0, wait_ready_at: None }),
+            )
+        };
+        let (ls, lk) = mk(0, left);
+        let (rs, rk) = mk(1, right);
+        let metrics_log = shared.clone();
+        let mut pipe = pipe::DuplexPipe::new(
+            (pipe::SimplexDirection::Outgoing, ls, lk),
+            (pipe::SimplexDirection::Incoming, rs, rk),
+            move |d: pipe::SimplexDirection, n: usize| {
+                let dir = if d == pipe::SimplexDirection::Outgoing { 0 } else { 1 };
+                metrics_log.push(dir, format!("metrics:{}", n), "unit".into());
+            },
+        );
+        let r = pipe.exchange(Duration::from_millis(timeout_ms)).await;
+        let end_ms = Instant::now().duration_since(shared.start).as_millis() as u64;
+        drop(pipe);
+        let result = match r {
+            Ok(()) => "ok".to_string(),
+            Err(e) if e.kind() == io::ErrorKind::TimedOut => "timedout".to_string(),
+            Err(_) => "err".to_string(),
+        };
+        let log = shared.log.lock().unwrap().clone();
+        DuplexRun { result, end_ms, log }
+    }
+}
